@@ -172,8 +172,12 @@ def run(chk):
                 'skip_sid, callback to one sid) / client ACK issued on any of 2-4 real PubSubManager (and AsyncPubSubManager) '
                 'hosts, emits also from a write-only manager, under immediate consumption and under random per-host '
                 'consumption schedules; non-trivial = a target client on another host than the issuer, or a consumption '
-                'delayed past another operation; distinct by (placement, per-step op kind/host/effect kinds)')
-    chk.trusted_base = ['Coq 8.16.1 kernel + vm_compute', 'hand models Cluster/PubSub.v over Manager/Manager.v',
+                'delayed past another operation; distinct by (placement, per-step op kind/host/effect kinds); plus histories '
+                'whose servers run application handlers (connect / event / disconnect handlers, functions or class-based '
+                'namespaces, calling enter_room / leave_room / rooms / emit / close_room / disconnect) with clients ending by '
+                'DISCONNECT packet, transport loss and disconnect(), compared with Cluster/Handlers.v (non-trivial = an API '
+                'call made while the calling handler\'s own client is being disconnected)')
+    chk.trusted_base = ['Coq 8.16.1 kernel + vm_compute', 'hand models Cluster/PubSub.v and Cluster/Handlers.v over Manager/Manager.v',
                         'harness/drivers/cluster.py (real PubSubManager/AsyncPubSubManager subclasses over a pickled in-memory '
                         'channel, real socketio.Server/AsyncServer over real engineio sockets built by hand, one global '
                         'generate_id counter, _thread() called once per consumed message)',
@@ -181,10 +185,12 @@ def run(chk):
                         'pickle round trip of the message dicts']
     chk.assumptions = ['the broker is one ordered reliable channel delivering every message to every listening host',
                        'host ids are pairwise distinct (uuid4)', 'engine.io transports stay open during a history',
-                       'no application event handlers are registered (connect/disconnect handlers are C04/C11)',
+                       'the property statement (cluster = one server, bit 2) is evaluated on histories without application '
+                       'handlers; histories with handlers are tied to Cluster/Handlers.v by correspondence only (handlers never '
+                       'raise and return None; when they run and with what arguments is C04/C11)',
                        'callbacks are used as supported: addressed to one client by its own sid',
                        'ack ids are opaque to clients: deliveries are compared with ack ids hidden']
-    chk.prove(targets=['Check/C07Check.v'])
+    chk.prove(targets=['Check/C07Check.v', 'Check/C07HCheck.v'])
     n = 700 if chk.thorough else 36
     ks = knob_sets(chk.thorough)
     bad = batch(chk, 'c07', rng, n, ks)
@@ -193,6 +199,7 @@ def run(chk):
         more = batch(chk, 'c07_more', rng, 3 * n, ks[:2])
         bad += [b for b in more if b[1] & 2]
     report(chk, bad)
+    hreport(chk, [b for b in handler_batch(chk, 'c07h', rng, 240 if chk.thorough else 30) if b[1]])
 
 
 def report(chk, bad, max_sigs=6):
@@ -218,6 +225,8 @@ def report(chk, bad, max_sigs=6):
 
 
 def replay(chk, data):
+    if data['replay'].get('handlers'):
+        return hreplay(chk, data)
     wos, ops, strict, mode, immediate = ast.literal_eval(data['replay']['py'])
     term, ops, steps, finals, ssteps = run_case(wos, ops, strict, mode, immediate)
     codes, errors = eval_terms('c07_replay', [term])
@@ -233,6 +242,134 @@ def replay(chk, data):
     for msg in lp:
         print('listener:', msg)
     return 0 if code == 0 and not errors and not lp else 1
+
+
+# ---------------------------------------------------------------- histories with application handlers
+HIMPORTS = 'From VT Require Import Check.C07HCheck.'
+
+
+def run_hcase(wos, ops, app, mode, immediate):
+    steps, finals, d = cluster.run_cluster(wos, ops, mode, immediate, app=app)
+    ops, steps = trim(list(ops), steps)
+    hid = d.host_ids
+    st = clist(['(%s, %s)' % (cluster.c_xop(o), clist([cluster.c_heff(e, hid) for e in effs])) for o, effs, _ in steps])
+    term = '(mkHCase %s %s %s %s %s)' % (clist([cbool(w) for w in wos]), cbool(immediate), cluster.c_app(app), st,
+                                         clist([cluster.c_dump(f) for f in finals]))
+    return term, ops, steps, finals
+
+
+def hclassify(ops, steps):
+    """Non-trivial: some handler made an API call while its own client was being disconnected."""
+    inside = False
+    for o, effs, _ in steps:
+        cur = None
+        for e in effs:
+            if e[0] == 'Handler':
+                cur = e[3]
+            elif e[0] == 'Result' and cur == 'disconnect':
+                inside = True
+    if not inside:
+        return None
+    return tuple((o[0], o[1], tuple(e[0] if e[0] != 'Handler' else 'H-' + e[3] for e in effs)) for o, effs, _ in steps)
+
+
+def handler_batch(chk, name, rng, n, modes=('sync', 'async')):
+    """n histories with application handlers per knob set, run on every mode, compared with Cluster/Handlers.v."""
+    terms, meta = [], []
+    for knobs in handler_knob_sets()[:2]:
+        for i in range(n):
+            wos, ops, app = cluster_hist.gen_handler_history(rng, knobs)
+            immediate = not knobs.delayed
+            for mode in modes:
+                try:
+                    term, ops2, steps, finals = run_hcase(wos, ops, app, mode, immediate)
+                except Exception as e:
+                    chk.broken_obligation('driver error (handlers, %s, %s): %r' % (mode, ops[:6], e))
+                    continue
+                for msg in listener_problems(wos, ops2, finals):
+                    chk.violation('c07-%s-listener-start' % mode, msg,
+                                  {'handlers': True, 'py': repr((wos, ops2, app, mode, immediate))})
+                terms.append(term)
+                meta.append((wos, ops2, app, mode, immediate))
+                key = hclassify(ops2, steps)
+                chk.count(1, key and (mode, immediate) + key,
+                          {'mode': mode, 'immediate': immediate, 'hosts': wos, 'handlers': repr(app)[:200],
+                           'ops': [repr(o)[:80] for o in ops2[:10]]} if i < 1 and mode == 'sync' else None)
+                chk.dist('handlers %s %s' % (mode, 'immediate' if immediate else 'delayed'))
+                for o in ops2:
+                    chk.dist('op ' + o[0])
+    codes, errors = coqio.eval_cases(name, HIMPORTS, '', 'hcase', terms, 'c07h_eval', shard=40)
+    chk.traces_validated += len(terms)
+    for e in errors:
+        chk.broken_obligation('case evaluation failed: ' + e)
+    return [(meta[i], code) for i, code in sorted(codes.items())]
+
+
+def hshrink(wos, ops, app, mode, immediate, budget=14):
+    """Smallest op list (greedy chunk removal) on which model and implementation still disagree."""
+    cur = list(ops)
+    chunk = max(1, len(cur) // 2)
+    rounds = 0
+    while rounds < budget and len(cur) > 1:
+        rounds += 1
+        cands, terms = [], []
+        for i in range(0, len(cur), chunk):
+            cand = cur[:i] + cur[i + chunk:]
+            if not cand:
+                continue
+            try:
+                terms.append(run_hcase(wos, cand, app, mode, immediate)[0])
+                cands.append(cand)
+            except Exception:
+                pass
+        if not terms:
+            break
+        codes, errors = coqio.eval_cases('c07h_shr', HIMPORTS, '', 'hcase', terms, 'c07h_eval', shard=len(terms))
+        if errors:
+            break
+        hit = next((cand for j, cand in enumerate(cands) if codes.get(j, 0)), None)
+        if hit is not None:
+            cur = hit
+            chunk = max(1, min(chunk, len(cur) // 2))
+        elif chunk == 1:
+            break
+        else:
+            chunk = max(1, chunk // 2)
+    return cur
+
+
+def hreport(chk, bad):
+    seen = set()
+    for meta, code in bad:
+        wos, ops, app, mode, immediate = meta
+        sig = 'c07-%s-handlers-correspondence' % mode
+        if sig in seen:
+            continue
+        seen.add(sig)
+        try:
+            small = hshrink(wos, ops, app, mode, immediate)
+        except Exception:
+            small = ops
+        chk.broken_obligation('correspondence: Cluster/Handlers.v and the %s cluster with application handlers disagree on %r'
+                              % (mode, small[:12]))
+        chk.violation(sig, 'model and implementation disagree (application handlers calling the room API)',
+                      {'handlers': True, 'py': repr((wos, small, app, mode, immediate))}, no_input=True)
+
+
+def hreplay(chk, data):
+    wos, ops, app, mode, immediate = ast.literal_eval(data['replay']['py'])
+    term, ops, steps, finals = run_hcase(wos, ops, app, mode, immediate)
+    codes, errors = coqio.eval_cases('c07h_replay', HIMPORTS, '', 'hcase', [term], 'c07h_eval')
+    code = codes.get(0, 0)
+    print('checker code (bit1 = model/implementation disagree):', code, errors)
+    rc, out = coqio.eval_print('c07h_replay', HIMPORTS, '', ['hfirst_diff %s' % term])
+    print(out[-1500:])
+    print('handlers:', app)
+    for o, effs, _ in steps:
+        print(o, '=>', effs)
+    for f in finals:
+        print(f)
+    return 0 if code == 0 and not errors else 1
 
 
 # ---------------------------------------------------------------- C14 parity (asyncio vs threaded)
@@ -282,4 +419,130 @@ def parity_traces(rng, n):
         rep = 'hosts=%r %s ops=%s' % (wos, 'immediate' if immediate else 'delayed',
                                       repr([o[:3] for o in ops[:12]])[:300])
         out.append(('pubsub-cluster', rep, ts, ta))
+    out.extend(handler_parity_traces(rng, n))
     return out
+
+
+# ---- histories with application handlers (connect / event / disconnect handlers calling the room API)
+def handler_knob_sets():
+    K = cluster_hist.HKnobs
+    return [K(), K(delayed=True), K(), K(n_ops=22, delayed=True)]
+
+
+def _handler_trace(wos, ops, app, mode, immediate):
+    steps, finals, d = cluster.run_cluster(wos, ops, mode, immediate, app=app)
+    ops2, steps = trim(list(ops), steps)
+    out = []
+    for o, effs, _ in steps:
+        out.append(('op', repr(o), [_plain_eff(e, d.host_ids) for e in effs]))
+    for k, f in enumerate(finals):
+        out.append(('final', k, f['rooms'], f['pending'], f['cur'], list(f['bg'])))
+    return out
+
+
+def handler_parity_traces(rng, n):
+    """n cluster histories whose application handlers (functions or class-based namespaces) call enter_room /
+    leave_room / rooms / emit / close_room / disconnect, with clients ending by DISCONNECT packet, transport
+    loss and server disconnect(); run on the threaded and on the asyncio stack.  The trace holds, per
+    operation, the messages published, the packets per client, the handler invocations and every API result
+    (rooms(sid) read inside the handler included), and the final tables of every host."""
+    ks = handler_knob_sets()
+    out = []
+    for i in range(n):
+        knobs = ks[i % len(ks)]
+        wos, ops, app = cluster_hist.gen_handler_history(rng, knobs)
+        immediate = not knobs.delayed
+        ts = _handler_trace(wos, ops, app, 'sync', immediate)
+        ta = _handler_trace(wos, ops, app, 'async', immediate)
+        out.append(('pubsub-handlers', repr((wos, ops, app, immediate)), ts, ta))
+    return out
+
+
+def _hpair_term(wos, ops, app, immediate):
+    """One history on both stacks as a Check/C07HCheck.v hpair term (None when trimming makes the op lists differ:
+    then the plain traces already differ and the PGen comparison reports it)."""
+    ss, fs, ds = cluster.run_cluster(wos, ops, 'sync', immediate, app=app)
+    sa, fa, da = cluster.run_cluster(wos, ops, 'async', immediate, app=app)
+    n = max(len(trim(list(ops), ss)[0]), len(trim(list(ops), sa)[0]))
+    ops2, ss, sa = list(ops)[:n], ss[:n], sa[:n]
+
+    def obs(steps, d):
+        return clist([clist([cluster.c_heff(e, d.host_ids) for e in effs]) for _, effs, _ in steps])
+    term = '(mkHPair %s %s %s %s %s %s %s %s)' % (
+        clist([cbool(w) for w in wos]), cbool(immediate), cluster.c_app(app), clist([cluster.c_xop(o) for o in ops2]),
+        obs(ss, ds), obs(sa, da), clist([cluster.c_dump(f) for f in fs]), clist([cluster.c_dump(f) for f in fa]))
+    return term, ops2, ss
+
+
+def parity_model_cases(rng, n):
+    """For C14: n histories with application handlers, each run on the threaded and on the asyncio cluster and
+    printed as ONE typed case that Coq compares with Cluster/Handlers.v (bit 1, each member) and member against
+    member (bit 2).  Returns what coqio.eval_cases needs plus per-case metadata."""
+    ks = handler_knob_sets()
+    terms, meta = [], []
+    for i in range(n):
+        knobs = ks[i % len(ks)]
+        wos, ops, app = cluster_hist.gen_handler_history(rng, knobs)
+        immediate = not knobs.delayed
+        term, ops2, steps = _hpair_term(wos, ops, app, immediate)
+        terms.append(term)
+        meta.append({'scenario': repr((wos, ops2, app, immediate)), 'key': hclassify(ops2, steps)})
+    return {'kind': 'pubsub-handlers-model', 'imports': HIMPORTS, 'case_type': 'hpair', 'fn': 'hpair_eval',
+            'terms': terms, 'meta': meta}
+
+
+def parity_shrink(kind, scen):
+    """Greedy chunk removal on a handler history whose two plain traces differ; returns (scenario_repr, ts, ta)
+    of the smallest history found that still differs (the caller has Coq confirm it), or None."""
+    if not kind.startswith('pubsub-handlers'):
+        return None
+    wos, ops, app, immediate = ast.literal_eval(scen)
+
+    def differ(cand):
+        try:
+            ts = _handler_trace(wos, cand, app, 'sync', immediate)
+            ta = _handler_trace(wos, cand, app, 'async', immediate)
+        except Exception:
+            return None
+        return (ts, ta) if ts != ta else None
+    cur = list(ops)
+    best = differ(cur)
+    if best is None:
+        return None
+    chunk = max(1, len(cur) // 2)
+    while len(cur) > 1:
+        hit = None
+        for i in range(0, len(cur), chunk):
+            cand = cur[:i] + cur[i + chunk:]
+            r = differ(cand) if cand else None
+            if r is not None:
+                hit, best = cand, r
+                break
+        if hit is not None:
+            cur = hit
+            chunk = max(1, min(chunk, len(cur) // 2))
+        elif chunk == 1:
+            break
+        else:
+            chunk = max(1, chunk // 2)
+    return repr((wos, cur, app, immediate)), best[0], best[1]
+
+
+def parity_replay(kind, scen):
+    """Re-run a handler history on both stacks and show where they differ; 1 when they do."""
+    wos, ops, app, immediate = ast.literal_eval(scen)
+    ts = _handler_trace(wos, ops, app, 'sync', immediate)
+    ta = _handler_trace(wos, ops, app, 'async', immediate)
+    print('hosts (write-only flags):', wos, '| consumption:', 'immediate' if immediate else 'delayed')
+    print('handlers:', app)
+    bad = 0
+    for a, b in zip(ts, ta):
+        if a == b:
+            print(' ', a[:2], a[2] if a[0] == 'op' else a[2:])
+        else:
+            bad += 1
+            print('  DIFFERS\n    threaded:', a, '\n    asyncio :', b)
+    if len(ts) != len(ta):
+        bad += 1
+        print('  trace lengths differ: %d vs %d' % (len(ts), len(ta)))
+    return 1 if bad else 0
